@@ -590,7 +590,15 @@ def o8(prog, ctx):
             return False
         if lit.atom.endswith("->python_style") and not lit.pol:
             return True
-        if "__ctype_b_loc" in lit.atom and "org_buf" in lit.atom and not lit.pol:
+        if ("__ctype_b_loc" in lit.atom or "isspace(" in lit.atom) and "org_buf" in lit.atom and not lit.pol:
+            return True
+        # the same test through a classifier of the library's own: `blank = (*org_buf == ' ' || *org_buf == '\t' || ...); if (!blank)`
+        if lit.kind == "truth" and not lit.pol and lit.node is not None and lit.node.strip().k == "DeclRefExpr" and lit.node.strip().j.get("dk") == "local":
+            rhs9 = cfg._flag_def(lit.node.strip().j["name"], b)
+            t9 = render(rhs9) if rhs9 is not None else ""
+            if "org_buf" in t9 and "== ' '" in t9 and "'\\x09'" in t9:
+                return True
+        if not lit.pol and "org_buf" in lit.atom and "== ' '" in lit.atom and "'\\x09'" in lit.atom:
             return True
         return False
     bad = None
